@@ -297,15 +297,15 @@ pub fn parse_proj(definition: &str) -> Result<String, Error> {
 
         // Move the "proj=..." element to the front of the collection, stripped for "proj="
         // and handle the pipeline globals, if any
+        if elements.iter().any(|element| element.starts_with("init=")) {
+            return Err(Error::Unsupported(
+                "parse_proj does not support PROJ init clauses: ".to_string() + step,
+            ));
+        }
+
         for (i, element) in elements.iter().enumerate() {
             // Mutating the Vec we are iterating over may seem dangerous but is
             // OK as we break out of the loop immediately after the mutation
-            if element.starts_with("init=") {
-                return Err(Error::Unsupported(
-                    "parse_proj does not support PROJ init clauses: ".to_string() + step,
-                ));
-            }
-
             if element.starts_with("proj=") {
                 elements.swap(i, 0);
                 elements[0] = elements[0][5..].to_string();
